@@ -24,8 +24,8 @@ RULE = ('cases = generated programs over FileStorage, MappingStorage and DemoSto
 ASSUMPTIONS = ['after close+reopen ids issued earlier but never stored (or packed away) may be issued again (the '
                'statement quantifies over "while a storage is open" and over what is stored)',
                'thread cases: preemption at lock operations, file operations and the lines of the storages\' new_oid only; schedules are sampled']
-BUDGET = {'quick': {'examples': 5000, 'workers': 8},
-          'thorough': {'examples': 25000, 'workers': 16}}
+BUDGET = {'quick': {'examples': 16000, 'workers': 8},
+          'thorough': {'examples': 100000, 'workers': 16}}
 
 KINDS = ['fs', 'fs', 'mapping', 'demo', 'demo-map-base', 'demo-fs-base', 'demo-fs-changes']
 HIGH = [1, 2, 3, 5, 255, 256, 257, 65535, 65536, 2 ** 32, 2 ** 62 - 1]
